@@ -153,3 +153,72 @@ combine_max = Contract(
 )
 
 ALL = [is_valid_memory, is_valid_wall_time, convert_to_gb, wall_time_to_seconds, post_init, constructor, combine_max]
+
+
+# ---- resources that are only known at run time (a callable) combined with defaults ------------------------------------------
+# _delayed_resources_with_defaults(kwargs, *, _resources, _default_resources): exactly what the eager path does, applied to
+# the Resources the callable returns for these keyword arguments.  Resources objects are opaque here; with_defaults
+# itself (dataclass plumbing: asdict / **dict) is an assumed pure function whose content is C20's bounded check.
+ResObjV = TRec("ResourcesObj", {"rid": TObj})
+ResFnV = TRec("ResourcesFn", {"fid": TObj})
+
+
+class _ResFn:
+    """The callable of the bounded rung: returns a fixed Resources, whatever the keyword arguments."""
+
+    def __init__(self, res):
+        self.res, self.fid = res, id(res)
+
+    def __call__(self, kwargs):
+        return self.res
+
+    def __deepcopy__(self, memo):
+        return self
+
+
+resfn_call = Contract(
+    f"{F}::ResourcesFn.__call__", params={"self": ResFnV, "kwargs": DSO}, returns=ResObjV, trusted=True, pure=True,
+    note="the user's resources callable: deterministic in the keyword arguments")
+resobj_with_defaults = Contract(
+    f"{F}::ResourcesObj.with_defaults", params={"self": ResObjV, "default_resources": ResObjV}, returns=ResObjV, trusted=True,
+    pure=True, note="Resources.with_defaults (eager path): assumed deterministic here; what it computes is C20's bounded check")
+
+
+def _wd(S, r, d):
+    return S.uf("fn:ResourcesObj.with_defaults", ResObjV, r, d) if S.symbolic else r.with_defaults(d)
+
+
+def _call(S, f, kw):
+    return S.uf("fn:ResourcesFn.__call__", ResObjV, f, kw) if S.symbolic else f(kw)
+
+
+delayed_with_defaults = Contract(
+    f"{F}::_delayed_resources_with_defaults",
+    params={"kwargs": DSO, "_resources": ResFnV, "_default_resources": ResObjV}, returns=ResObjV,
+    ensures=lambda S, a, r, post: {
+        "the Resources the callable returns for these arguments, combined with the defaults exactly as in the eager path":
+            S.eq(r, _wd(S, _call(S, a._resources, a.kwargs), a._default_resources)),
+    },
+)
+DELAYED = [resfn_call, resobj_with_defaults, delayed_with_defaults]
+
+
+def delayed_gen(rng, tier):
+    from pipefunc.resources import Resources
+    def res():
+        kw = {}
+        if rng.random() < 0.6:
+            kw["cpus"] = rng.choice((1, 2, 8))
+        if rng.random() < 0.6:
+            kw["gpus"] = rng.choice((0, 0, 1, 3))
+        if rng.random() < 0.5:
+            kw["memory"] = rng.choice(("1GB", "500MB"))
+        if rng.random() < 0.3:
+            kw["extra_args"] = {"qos": "x"}
+        return Resources(**kw)
+    for _ in range(300 if tier == "quick" else 3000):
+        yield {"kwargs": {"x": 1}, "_resources": _ResFn(res()), "_default_resources": res()}
+
+
+def delayed_call(fn, a):
+    return fn(a["kwargs"], _resources=a["_resources"], _default_resources=a["_default_resources"])
